@@ -821,6 +821,16 @@ func ruleP19Names(p *Prog, r *Report) {
 			okNdb = true
 		}
 	}
+	// (or the bookmark built on the spot with that very name)
+	eachInstr(ndb, func(in ssa.Instruction) {
+		if st, ok := in.(*ssa.Store); ok {
+			if fa, isFA := st.Addr.(*ssa.FieldAddr); isFA && fieldName(fa) == "name" && typeNameOf(derefType(fa.X.Type())) == "bookmark" {
+				if sv, isS := constString(unconv(st.Val)); isS && sv == fallback {
+					okNdb = true
+				}
+			}
+		}
+	})
 	r.check(okNdb, rule, "NewDefaultBookmark:key", p.pos(ndb.Pos()), "NewDefaultBookmark uses the same constant", "NewDefaultBookmark uses a different name than NewName's fallback")
 	// NewBookmark normalises with NewName
 	okNb := false
